@@ -154,7 +154,7 @@ def gen(rng, cid, nops):
     # make sure something valid is there at the end
     for f in rng.sample(FILES[:5], 3):
         k, c = new("valid", f)
-        ops.append({"op": rng.choice(["write", "write", "write", "link_in", "rename_in"]), "file": f, "text": content(k, c)})
+        ops.append({"op": rng.choice(["write", "write", "write", "link_in", "rename_in", "write_keepopen"]), "file": f, "text": content(k, c)})
         state[f] = (k, c)
     scn = {"id": cid, "seed": rng.randint(1, 10**6), "base": BASE, "initial": initial, "ops": ops, "missing_at_start": missing, "trailing_slash": rng.random() < 0.2, "yield_us": rng.choice([0, 100, 400]), "mutex_yield_ppm": rng.choice([0, 20000, 200000])}
     meta = {"final": {f: list(v) for f, v in state.items()}, "initial": {f: list(v) for f, v in init_state.items()}, "recreated": recreated, "invalid": invalid, "missing_at_start": missing}
